@@ -13,21 +13,50 @@ Definition C14_restart_full : Prop :=
     observe (run p (init_state vals next0) (ops1 ++ ORestart :: ops2)) =
     observe (run p (init_state vals next0) (ops1 ++ ops2)).
 
-(* ---- witnesses: the faithful model is NOT restart-equivalent (each one replays on the real code, see design/C14.md) *)
+(* ---- regression scenarios: the four refutation witnesses of the unrepaired code ------------------------------ *)
+(* With the repairs repo_patches/fix-c14-{replay-window-stored-maxnonce, prune-window-underflow, replay-distinct-nonces,
+   replay-forced-seal} modelled, the former witnesses K1 (second message of a validator), K3 (validator-set change inside
+   the window) and K6 (MaxNonce 4) are restart-safe; K2 (round finalized before the restart) still refutes the full
+   statement (C14_restart_refuted_final below). *)
 Definition wp := mkParams [mkFeeder 1 1 1 6 2 0; mkFeeder 2 2 1 10 2 0] 3.
 Definition wv := [(0, 101); (1, 100)].
 Definition wn := [(1, (2, Some 1)); (2, (2, Some 1))].
 Definition ends (n : nat) := repeat (OEnd None) n.
+Definition same_obs (p : params) (ops1 ops2 : list op) : bool :=
+  let a := observe (run p (init_state wv wn) (ops1 ++ ORestart :: ops2)) in
+  let b := observe (run p (init_state wv wn) (ops1 ++ ops2)) in
+  zl_eqb (fst a) (fst b) && sproj_eqb (proj_store (snd a)) (proj_store (snd b)).
+
+Definition w1a := ends 7 ++ [OTx (mkTx 0 1 1 7 [(1, 100)]); OTx (mkTx 0 1 2 7 [(2, 101)]); OEnd None].
+Definition w1b := [OTx (mkTx 1 1 1 7 [(2, 101)]); OEnd None; OEnd None; OEnd None].
+Example C14_regression_nonce0 :
+  synced_b wp (fst (run wp (init_state wv wn) w1a)) = true /\ same_obs wp w1a w1b = true /\
+  aget 1 (s_next (snd (observe (run wp (init_state wv wn) (w1a ++ ORestart :: w1b))))) = Some (4, Some 101).
+Proof. vm_compute. repeat split; reflexivity. Qed.
+
+Definition w2a := ends 7 ++ [OTx (mkTx 0 1 1 7 [(1, 100)]); OTx (mkTx 1 1 1 7 [(1, 100)]); OEnd None].
+Definition w2b := [OEnd None; OEnd None; OEnd None].
+
+Definition w3a := ends 7 ++ [OEnd (Some [(0, 150); (1, 100)])].
+Definition w3b := [OEnd None; OEnd None; OEnd None].
+Example C14_regression_valset :
+  synced_b wp (fst (run wp (init_state wv wn) w3a)) = true /\ same_obs wp w3a w3b = true.
+Proof. vm_compute. split; reflexivity. Qed.
+
+Definition wp4 := mkParams [mkFeeder 1 1 1 8 2 0; mkFeeder 2 2 1 10 2 0] 4.
+Definition w6a := ends 9 ++ [OTx (mkTx 0 1 1 9 [(1, 100)]); OEnd None; OEnd None; OEnd None].
+Definition w6b := [OTx (mkTx 1 1 1 9 [(1, 100)]); OEnd None; OEnd None].
+Example C14_regression_maxnonce4 :
+  synced_b wp4 (fst (run wp4 (init_state wv wn) w6a)) = true /\ same_obs wp4 w6a w6b = true.
+Proof. vm_compute. split; reflexivity. Qed.
+
+(* ---- still refuted: C14-final-reopen (the repair that persists the finalizing message was not accepted) ------ *)
 Definition refutes_p (p : params) (ops1 ops2 : list op) : bool :=
-  (1 <=? p_maxnonce p) && forallb plain ops1 && forallb plain ops2 && at_boundary ops1 &&
-  negb (let a := observe (run p (init_state wv wn) (ops1 ++ ORestart :: ops2)) in
-        let b := observe (run p (init_state wv wn) (ops1 ++ ops2)) in
-        zl_eqb (fst a) (fst b) && sproj_eqb (proj_store (snd a)) (proj_store (snd b))).
-Definition refutes := refutes_p wp.
+  (1 <=? p_maxnonce p) && forallb plain ops1 && forallb plain ops2 && at_boundary ops1 && negb (same_obs p ops1 ops2).
 
 Lemma refutes_p_sound p ops1 ops2 : refutes_p p ops1 ops2 = true -> ~ C14_restart_full.
 Proof.
-  unfold refutes_p. intros H F. apply andb_prop in H. destruct H as [H Hn]. apply andb_prop in H. destruct H as [H Hb].
+  unfold refutes_p, same_obs. intros H F. apply andb_prop in H. destruct H as [H Hn]. apply andb_prop in H. destruct H as [H Hb].
   apply andb_prop in H. destruct H as [H H2]. apply andb_prop in H. destruct H as [Hmn H1]. apply Z.leb_le in Hmn.
   specialize (F p wv wn ops1 ops2 Hmn H1 H2 Hb).
   rewrite F in Hn. cbv zeta in Hn. apply negb_true_iff in Hn.
@@ -41,41 +70,15 @@ Proof.
       + destruct (sp_vub (proj_store s)); simpl; [apply Z.eqb_refl | reflexivity]. }
   rewrite T in Hn. discriminate.
 Qed.
-Lemma refutes_sound ops1 ops2 : refutes ops1 ops2 = true -> ~ C14_restart_full.
-Proof. apply refutes_p_sound. Qed.
 
-(* K1: the second counted message of validator 0 (nonce 2, det-id 2) is dropped by the replay (Nonce 0 twice);
-   validator 1 then agrees on det-id 2: the live node finalizes 101 for round 3, the restarted one does not. *)
-Definition w1a := ends 7 ++ [OTx (mkTx 0 1 1 7 [(1, 100)]); OTx (mkTx 0 1 2 7 [(2, 101)]); OEnd None].
-Definition w1b := [OTx (mkTx 1 1 1 7 [(2, 101)]); OEnd None; OEnd None; OEnd None].
-Theorem C14_restart_refuted_nonce0 : ~ C14_restart_full.
-Proof. apply (refutes_sound w1a w1b). vm_compute. reflexivity. Qed.
-Print Assumptions C14_restart_refuted_nonce0.
-
-(* K2: both validators agree in block 8, the round is final; restarted after block 8 the round is open again and is
-   failed-sealed at window end: GrowRoundID appends a second round id. *)
-Definition w2a := ends 7 ++ [OTx (mkTx 0 1 1 7 [(1, 100)]); OTx (mkTx 1 1 1 7 [(1, 100)]); OEnd None].
-Definition w2b := [OEnd None; OEnd None; OEnd None].
+(* K2: both validators agree in block 8, the round is final and the finalizing block's messages are dropped from the
+   cache; restarted after block 8 the round is open again and is fail-sealed at window end: GrowRoundID appends a second
+   round id (known finding C14-final-reopen, replayed on the real code by the directed history kf-final). *)
 Theorem C14_restart_refuted_final : ~ C14_restart_full.
-Proof. apply (refutes_sound w2a w2b). vm_compute. reflexivity. Qed.
+Proof. apply (refutes_p_sound wp w2a w2b). vm_compute. reflexivity. Qed.
 Print Assumptions C14_restart_refuted_final.
-
-(* K3: a validator-set change in block 8 force-seals round 7; the rebuilt round table has it open again. *)
-Definition w3a := ends 7 ++ [OEnd (Some [(0, 150); (1, 100)])].
-Definition w3b := [OEnd None; OEnd None; OEnd None].
-Theorem C14_restart_refuted_valset : ~ C14_restart_full.
-Proof. apply (refutes_sound w3a w3b). vm_compute. reflexivity. Qed.
-Print Assumptions C14_restart_refuted_valset.
-
-(* K6: params.MaxNonce = 4. Validator 0 submits in block 10 (round based 9, window 10..13); a process restarted after
-   block 12 computes the window with the compile-time default 3 and replays blocks 11, 12 only: the message is lost, and
-   when validator 1 agrees in block 13 the live node finalizes while the restarted one does not. *)
-Definition wp4 := mkParams [mkFeeder 1 1 1 8 2 0; mkFeeder 2 2 1 10 2 0] 4.
-Definition w6a := ends 9 ++ [OTx (mkTx 0 1 1 9 [(1, 100)]); OEnd None; OEnd None; OEnd None].
-Definition w6b := [OTx (mkTx 1 1 1 9 [(1, 100)]); OEnd None; OEnd None].
-Theorem C14_restart_refuted_default_maxnonce : ~ C14_restart_full.
-Proof. apply (refutes_p_sound wp4 w6a w6b). vm_compute. reflexivity. Qed.
-Print Assumptions C14_restart_refuted_default_maxnonce.
+Example C14_not_synced_final : synced_b wp (fst (run wp (init_state wv wn) w2a)) = false.
+Proof. vm_compute. reflexivity. Qed.
 
 (* ---- what IS true, for all histories -------------------------------------------------------------- *)
 
@@ -133,9 +136,8 @@ Print Assumptions C14_lockstep.
 
 (* For ALL never-stopped histories over valid params (distinct feeder ids, MaxNonce >= 2, no feeder end block,
    interval >= 1, start block >= 1): a restart at a block boundary where every started feeder is outside its submission
-   window (left >= MaxNonce), the recent-message store holds no block >= h-3+1 (3 = compile-time default of
-   common.MaxNonce, which a fresh process uses for the replay window) and the last validator-set change is older than
-   that, is unobservable for ALL continuations. (The three refutations above are restarts inside a window.) *)
+   window (left >= MaxNonce), the recent-message store holds no block >= h-MaxNonce+1 and the last validator-set change is
+   older than that, is unobservable for ALL continuations. (Restarts inside a window: regression examples above, checks [pred]/[conj], and C14_round_replay_faithful.) *)
 Theorem C14_restart_when_quiet : forall p vals next0 ops1 vu ops2,
   params_ok p -> forallb plain ops1 = true -> forallb plain ops2 = true ->
   quiet p (fst (run p (init_state vals next0) (ops1 ++ [OEnd vu]))) ->
@@ -160,29 +162,43 @@ Print Assumptions C14_round_table_closed_form.
 
 (* What the replay does preserve: feeding the persisted (filtered) price list of a counted message, with Nonce 0, to a
    worker that has not yet seen a message of that validator reproduces exactly the same aggregation state, the same
-   persisted item and the same final price. So a rebuilt worker can only differ through K1 (a validator's further message),
-   K2 (the finalizing block is not persisted) or K3 (round table / powers), never through the prices themselves. *)
+   persisted item and the same final price, whatever nonce the replay uses. *)
 Theorem C14_replay_item_faithful : forall mn w v nonce power ps w1 kept fin,
   mn <> 0 -> aget v (w_nonces w) = None ->
   worker_do mn w v nonce power ps = (w1, Some kept, fin) ->
-  exists w2, worker_do mn w v 0 power kept = (w2, Some kept, fin) /\ w_core w2 = w_core w1.
+  forall rn, exists w2, worker_do mn w v rn power kept = (w2, Some kept, fin) /\ w_core w2 = w_core w1.
 Proof. exact worker_do_replay. Qed.
 Print Assumptions C14_replay_item_faithful.
 
 (* A whole round at worker level, any number of validators: if every validator contributed at most one message, every
-   message was counted and none finalized, then replaying the persisted items with Nonce 0 on a fresh worker rebuilds exactly
+   message was counted and none finalized, then replaying the persisted items (with whatever nonces) on a fresh worker rebuilds exactly
    the live worker's aggregation state (filter det-id sets, calculator, aggregator). This is the per-round core of the
    in-window case; its lift to whole histories (interleaved feeders, blocks, pruning) is not proved - see design/C14.md. *)
-Theorem C14_round_replay_faithful : forall mn vals msgs w2 its,
+Theorem C14_round_replay_faithful : forall mn rn vals msgs w2 its,
   mn <> 0 -> NoDup (map (fun m : wmsg => fst (fst (fst m))) msgs) ->
   live_round mn (new_worker vals) msgs = Some (w2, its) ->
-  w_core (replay_round mn (new_worker vals) its) = w_core w2.
+  w_core (replay_round mn rn 0 (new_worker vals) its) = w_core w2.
 Proof.
-  intros mn vals msgs w2 its Hmn ND H.
-  apply (replay_round_faithful mn Hmn msgs (new_worker vals) (new_worker vals) w2 its ND); [|reflexivity|exact H].
+  intros mn rn vals msgs w2 its Hmn ND H.
+  apply (replay_round_faithful mn rn Hmn msgs 0%nat (new_worker vals) (new_worker vals) w2 its ND); [|reflexivity|exact H].
   intros m _. split; reflexivity.
 Qed.
 Print Assumptions C14_round_replay_faithful.
+
+(* The same without the one-message-per-validator restriction: ANY sequence of counted, non-finalizing messages (validators
+   may send several, with the distinct nonces the ante handler enforces) is rebuilt exactly by replaying the persisted items
+   with pairwise distinct replay nonces - this is why fix-c14-replay-distinct-nonces repairs K1 (with a constant replay nonce
+   the statement is false: C14_regression_nonce0 was the counterexample). Worker level; not lifted to whole histories. *)
+Theorem C14_round_replay_general : forall mn rn vals msgs w2 its,
+  mn <> 0 -> (forall i j : nat, rn i = rn j -> i = j) ->
+  live_round mn (new_worker vals) msgs = Some (w2, its) ->
+  w_core (replay_round mn rn 0 (new_worker vals) its) = w_core w2.
+Proof.
+  intros mn rn vals msgs w2 its Hmn Hinj H.
+  apply (replay_round_general mn rn Hmn Hinj msgs 0%nat (new_worker vals) (new_worker vals) w2 its); [|exact H].
+  split; [reflexivity|]. split; [reflexivity|]. intros v n Hin. simpl in Hin. destruct Hin.
+Qed.
+Print Assumptions C14_round_replay_general.
 
 (* ---- non-vacuity ----------------------------------------------------------------------------------- *)
 (* a restart in the MIDDLE of a submission window, with a partial aggregation in memory, that is restart-safe:
@@ -201,14 +217,6 @@ Proof. apply C14_restart_partial; [discriminate | reflexivity | reflexivity | ex
 Example C14_partial_finalizes :
   aget 1 (s_next (snd (observe (run wp (init_state wv wn) (e1a ++ ORestart :: e1b))))) = Some (4, Some 101).
 Proof. vm_compute. reflexivity. Qed.
-(* the three refutation points are exactly not synced *)
-Example C14_not_synced_k1 : synced_b wp (fst (run wp (init_state wv wn) w1a)) = false.
-Proof. vm_compute. reflexivity. Qed.
-Example C14_not_synced_k2 : synced_b wp (fst (run wp (init_state wv wn) w2a)) = false.
-Proof. vm_compute. reflexivity. Qed.
-Example C14_not_synced_k3 : synced_b wp (fst (run wp (init_state wv wn) w3a)) = false.
-Proof. vm_compute. reflexivity. Qed.
-
 (* C14_restart_when_quiet is not vacuous: wp is valid; after 16 blocks (a round finalized in block 8, messages persisted)
    both feeders are outside their windows: the state is quiet, and it is indeed synced *)
 Example C14_wp_ok : params_ok wp.
@@ -232,4 +240,10 @@ Example C14_live_round_some :
   exists w2 its, live_round 3 (new_worker [(0, 101); (1, 100); (2, 100)])
     [(0, 1, 101, [(1, 100); (1, 100); (2, 101)]); (1, 2, 100, [(3, 99)]); (2, 1, 100, [(4, 98)])] = Some (w2, its) /\
     length its = 3%nat.
+Proof. eexists. eexists. split; [vm_compute; reflexivity | reflexivity]. Qed.
+
+(* C14_round_replay_general is not vacuous: validator 0 sends two counted messages (nonces 1 and 2) *)
+Example C14_live_round_repeated :
+  exists w2 its, live_round 3 (new_worker [(0, 101); (1, 100); (2, 100)])
+    [(0, 1, 101, [(1, 100)]); (0, 2, 101, [(2, 101)]); (1, 1, 100, [(3, 99)])] = Some (w2, its) /\ length its = 3%nat.
 Proof. eexists. eexists. split; [vm_compute; reflexivity | reflexivity]. Qed.
